@@ -677,6 +677,62 @@ def determinism_check(mod, tier, base_seed, results, k=None):
     return dict(cases_rerun=checked, mismatches=mismatches)
 
 
+ANCHORED = ['pygyro/model/layout.py', 'pygyro/model/grid.py', 'pygyro/advection/advection.py',
+            'pygyro/poisson/poisson_solver.py', 'pygyro/diagnostics/norms.py', 'pygyro/diagnostics/energy.py',
+            'pygyro/diagnostics/diagnostic_collector.py', 'pygyro/utilities/savingTools.py',
+            'pygyro/initialisation/setups.py', 'pygyro/initialisation/constants.py',
+            'pygyro/initialisation/initialiser.py', 'fullSimulation.py']
+
+
+def line_reach(mod, base_seed, tier, n):
+    """Run n cases of the batch in this process under coverage.py restricted to the
+    anchored files; returns {file: [statements, lines never hit]} (thorough tier)."""
+    try:
+        import coverage
+        import seams
+    except Exception as e:   # noqa
+        return {'error': repr(e)}
+    repo = seams.REPO
+    cov = coverage.Coverage(include=[os.path.join(repo, f) for f in ANCHORED], data_file=None)
+    cov.start()
+    ran = 0
+    try:
+        for i in range(n):
+            case = gen_case(mod, base_seed, tier, i)
+            if case.get('kind') == 'hashseed':
+                continue
+            run_case(mod, case)
+            ran += 1
+    finally:
+        cov.stop()
+    import ast
+    out = {'cases': ran, 'note': 'statements inside function bodies only (modules are imported before measurement starts)'}
+    for f in ANCHORED:
+        try:
+            path = os.path.join(repo, f)
+            _, stmts, _, missing, _ = cov.analysis2(path)
+            body = set()
+            for node in ast.walk(ast.parse(_real_open_text(path))):
+                if isinstance(node, (ast.FunctionDef, ast.AsyncFunctionDef)):
+                    for st in node.body:
+                        for sub in ast.walk(st):
+                            if hasattr(sub, 'lineno') and isinstance(sub, ast.stmt):
+                                body.add(sub.lineno)
+            stm = [x for x in stmts if x in body]
+            mis = [x for x in missing if x in body]
+            if len(mis) < len(stm):
+                out[f] = dict(statements=len(stm), never_hit=mis)
+        except Exception as e:   # noqa
+            out[f] = dict(error=repr(e))
+    return out
+
+
+def _real_open_text(path):
+    import seams
+    with seams.real_open(path) as fh:
+        return fh.read()
+
+
 def main_check(cid, tier, base_seed, jobs=None):
     t_start = _real_time()
     mod, results, herr, skipped, wall, jobs = run_batch(cid, tier, base_seed, jobs)
@@ -731,6 +787,8 @@ def main_check(cid, tier, base_seed, jobs=None):
         herr.append('determinism self-test failed: %r' % determinism['mismatches'][:2])
     cov = summarise(mod, tier, base_seed, results, herr, skipped, wall, jobs, new_viol, known_hits,
                     determinism)
+    if tier == 'thorough' and not os.environ.get('VERIF_NO_EVIDENCE'):
+        cov['line_reach_sample'] = line_reach(mod, base_seed, tier, getattr(mod, 'REACH_N', 60))
     write_evidence(mod, tier, base_seed, cov, _real_time() - t_start, len(new_viol))
     for ln in lines:
         print(ln)
